@@ -71,9 +71,9 @@ def make_node(ctx):
     return keep, node
 
 
-NAMES = ["a", "b", "c"]
+NAMES = ["a", "b", "c", "a", "b", "c", "x-y", "a.b", "_n1"]
 NSS = ["", "urn:u", "urn:q"]
-VALUES = ["x", "y", "", "z z", "1"]
+VALUES = ["x", "y", "", "z z", "1", " ", "v" * 60, "𝔘é", "a{b}c"]
 
 
 def gen_accessor(rng, ctx):
